@@ -51,6 +51,20 @@ func c09mMisflagged(b c09mbox, out reflect.Type) bool {
 	return b.v.Type().Size() == out.Size() && (b.v.Type().Kind() != out.Kind() || c09mDirect(b.v.Type()) != c09mDirect(out))
 }
 
+// c09mActual is the argument a caller would pass for "the supplied value b, as a value of the declared type t":
+// the zero value for nil, the value itself when assignable, the same bytes retyped for an accepted stand-in.
+func c09mActual(b c09mbox, t reflect.Type) (reflect.Value, bool) {
+	switch {
+	case b.nilv:
+		return reflect.Value{}, true
+	case b.v.Type().AssignableTo(t):
+		return b.v, true
+	case (t.Kind() == reflect.Struct || t.Kind() == reflect.Ptr) && b.v.Type().Size() == t.Size() && !c09mMisflagged(b, t) && cat.SafeRetype(b.v, t):
+		return cat.Retype(b.v, t), true
+	}
+	return reflect.Value{}, false
+}
+
 // c09mJudge compares what the caller received with what was supplied (the property oracle's raw facts).
 func c09mJudge(got reflect.Value, b c09mbox, out reflect.Type) string {
 	switch {
@@ -362,7 +376,245 @@ func TestVerifC09(t *testing.T) {
 						}
 						return res
 					}
+					if a, ok := c09mActual(b, d.Typ); ok {
+						return "ok # match=" + strconv.Itoa(d.CallIn(a))
+					}
 					return "ok # match=-"
+				})
+			case "c09.in":
+				// ONE arg.In(values...) object used for two stubs with different declared parameter types
+				d1, d2 := cat.ByName(toks[1]), cat.ByName(toks[2])
+				k, _ := strconv.Atoi(toks[3])
+				rest := toks[4:]
+				boxes := make([]c09mbox, k)
+				vals := make([]interface{}, k)
+				for i := 0; i < k; i++ {
+					boxes[i], rest = c09mParseBox(rest)
+					vals[i] = boxes[i].i
+				}
+				expr := arg.In(vals...)
+				var ts, ms []string
+				for _, d := range []*cat.Decl{d1, d2} {
+					d := d
+					func() {
+						mock := Create()
+						defer mock.Reset()
+						cfg := cat.Catch("cfgpanic:", func() string {
+							m := mock.Func(d.In)
+							m.Return(0)
+							m.When(expr).Return(1)
+							return "ok"
+						})
+						ts = append(ts, cfg)
+						if cfg != "ok" {
+							ms = append(ms, "-")
+							return
+						}
+						var mm []string
+						for _, b := range boxes {
+							if c09mMisflagged(b, d.Typ) { // a mis-flagged stored value takes part in every comparison: no calls
+								ms = append(ms, "-")
+								return
+							}
+						}
+						for _, b := range boxes {
+							r := "-"
+							if a, ok := c09mActual(b, d.Typ); ok {
+								r = cat.Catch("p:", func() string { return strconv.Itoa(d.CallIn(a)) })
+							}
+							mm = append(mm, r)
+						}
+						if len(mm) == 0 {
+							mm = []string{"-"}
+						}
+						ms = append(ms, strings.Join(mm, ","))
+					}()
+				}
+				return "t1=" + ts[0] + " t2=" + ts[1] + " # m1=" + ms[0] + " m2=" + ms[1]
+			case "c09.when2":
+				p2 := cat.Pair2For(toks[1], toks[2])
+				ta, tb := cat.ByName(toks[1]).Typ, cat.ByName(toks[2]).Typ
+				ba, rest := c09mParseBox(toks[3:])
+				bb, _ := c09mParseBox(rest)
+				mock := Create()
+				defer mock.Reset()
+				cfg := cat.Catch("cfgpanic:", func() string {
+					m := mock.Func(p2.Fn)
+					m.Return(0)
+					m.When(ba.i, bb.i).Return(1)
+					return ""
+				})
+				if cfg != "" {
+					return cfg
+				}
+				if c09mMisflagged(ba, ta) || c09mMisflagged(bb, tb) {
+					return "ok # match=-"
+				}
+				return cat.Catch("callpanic:", func() string {
+					a, ok1 := c09mActual(ba, ta)
+					b, ok2 := c09mActual(bb, tb)
+					if !ok1 || !ok2 {
+						return "ok # match=-"
+					}
+					return "ok # match=" + strconv.Itoa(p2.Call(a, b))
+				})
+			case "c09.whenv":
+				vd := cat.VariadicFor(toks[1])
+				et := cat.ByName(toks[1]).Typ
+				k, _ := strconv.Atoi(toks[2])
+				rest := toks[3:]
+				boxes := make([]c09mbox, k)
+				vals := make([]interface{}, k)
+				for i := 0; i < k; i++ {
+					boxes[i], rest = c09mParseBox(rest)
+					vals[i] = boxes[i].i
+				}
+				mock := Create()
+				defer mock.Reset()
+				cfg := cat.Catch("cfgpanic:", func() string {
+					m := mock.Func(vd.Fn)
+					m.Return(0)
+					m.When(vals...).Return(1)
+					return ""
+				})
+				if cfg != "" {
+					return cfg
+				}
+				for _, b := range boxes {
+					if c09mMisflagged(b, et) {
+						return "ok # match=-"
+					}
+				}
+				return cat.Catch("callpanic:", func() string {
+					as := make([]reflect.Value, k)
+					for i, b := range boxes {
+						a, ok := c09mActual(b, et)
+						if !ok {
+							return "ok # match=-"
+						}
+						as[i] = a
+					}
+					res := "ok # match=" + strconv.Itoa(vd.Call(as))
+					if k > 0 { // one argument fewer must not be answered by this When
+						res += " fewer=" + strconv.Itoa(vd.Call(as[:k-1]))
+					}
+					return res
+				})
+			case "c09.whenseq", "c09.whenand":
+				// Return(defaults); When(1).Returns(g1..gk)  |  When(1).Return(g1).AndReturn(g2)...; k+1 calls f(1), then f(2)
+				nt, _ := strconv.Atoi(toks[1])
+				outs := toks[2 : 2+nt]
+				k, _ := strconv.Atoi(toks[2+nt])
+				rest := toks[3+nt:]
+				groups := make([]c09mGroup, k)
+				vals := make([]interface{}, k)
+				for i := 0; i < k; i++ {
+					groups[i], rest = c09mParseGroup(rest)
+					vals[i] = groups[i].value()
+				}
+				fn, call, types := c09mCorpusA(outs)
+				dflt := make([]interface{}, len(types))
+				for i, t := range types {
+					dflt[i] = reflect.Zero(t).Interface()
+				}
+				mock := Create()
+				defer mock.Reset()
+				cfg := cat.Catch("cfgpanic:", func() string {
+					m := mock.Func(fn)
+					m.Return(dflt...)
+					w := m.When(1)
+					if toks[0] == "c09.whenseq" {
+						w.Returns(vals...)
+						return ""
+					}
+					for i, g := range groups {
+						vs := make([]interface{}, len(g.boxes))
+						for j, b := range g.boxes {
+							vs[j] = b.i
+						}
+						if i == 0 {
+							w.Return(vs...)
+						} else {
+							w.AndReturn(vs...)
+						}
+					}
+					return ""
+				})
+				if cfg != "" {
+					return cfg
+				}
+				for _, g := range groups {
+					if g.misflagged(types) {
+						return "cfgok call=unmodelled"
+					}
+				}
+				var ds, ss []string
+				for i := 0; i <= k; i++ {
+					gi := i
+					if gi >= k {
+						gi = k - 1
+					}
+					d, same := c09mCallDesc(call, 1, groups[gi], types)
+					ds = append(ds, d)
+					ss = append(ss, same)
+				}
+				dz := cat.Catch("callpanic:", func() string {
+					for _, x := range call(2) {
+						if !x.IsZero() {
+							return "false"
+						}
+					}
+					return "true"
+				})
+				return strings.Join(ds, " | ") + " # same=" + strings.Join(ss, ";") + " dflt=" + dz
+			case "c09.meth":
+				// Return(values...) on a method mock (m) / an interface-variable mock (i), then one call
+				me := cat.MethFor(toks[2])
+				typ := cat.ByName(toks[2]).Typ
+				no, _ := strconv.Atoi(toks[3])
+				rest := toks[4:]
+				boxes := make([]c09mbox, no)
+				vals := make([]interface{}, no)
+				for i := 0; i < no; i++ {
+					boxes[i], rest = c09mParseBox(rest)
+					vals[i] = boxes[i].i
+				}
+				mock := Create()
+				defer mock.Reset()
+				var iv cat.SvcI
+				cfg := cat.Catch("cfgpanic:", func() string {
+					if toks[1] == "m" {
+						mock.Struct(&cat.Svc{}).Method(me.Name).Return(vals...)
+					} else {
+						// As(func(ctx *IContext, id int) T): only its type is used on the Return path
+						ft := reflect.FuncOf([]reflect.Type{reflect.TypeOf(&IContext{}), reflect.TypeOf(0)}, []reflect.Type{typ}, false)
+						as := reflect.MakeFunc(ft, func([]reflect.Value) []reflect.Value { return []reflect.Value{reflect.Zero(typ)} }).Interface()
+						mock.Interface(&iv).Method(me.Name).As(as).Return(vals...)
+					}
+					return ""
+				})
+				if cfg != "" {
+					return cfg
+				}
+				if no >= 1 && c09mMisflagged(boxes[0], typ) {
+					return "cfgok call=unmodelled"
+				}
+				return cat.Catch("callpanic:", func() string {
+					var got reflect.Value
+					if toks[1] == "m" {
+						got = me.Call(&cat.Svc{N: 1}, 1)
+					} else {
+						got = me.CallI(iv, 1)
+					}
+					same := "-"
+					if no >= 1 {
+						same = c09mJudge(got, boxes[0], typ)
+					}
+					res := "got " + cat.Desc(got) + " # same=" + same
+					if got.Kind() == reflect.Interface {
+						res += " eqnil=" + strconv.FormatBool(got.IsNil())
+					}
+					return res
 				})
 			}
 			return ""
